@@ -479,27 +479,45 @@ pub fn check_case(c: &Case, obs: &mut Obs) -> Result<(), Failure> {
             return Ok(());
         }
     }
+    let pokes = c.pokes.clone();
+    let code_v = code.to_vec();
+    let init_byte = move |a: u64| cpu::initial_byte(a, &code_v, SLOT, &pokes);
+    // 32-bit mode: (a) mode-invariant encodings are run on the CPU; (b) the mode-variant forms the
+    // small reference model covers are judged by the model; everything else is not compared
+    let mut reference: Option<cpu::CpuOut> = None;
     if !mode64 {
         if let Err(why) = mode_invariant(code, &d) {
-            obs.exclude(&format!("x86-32:not-mode-invariant:{}", why));
-            return Ok(());
+            match crate::model32::run(&d, &mn, &c.gpr, c.flags, &init_byte, SLOT + len as u64) {
+                Ok(o) => {
+                    obs.class("oracle:model32");
+                    reference = Some(o);
+                }
+                Err(crate::model32::Stop32::Fault) => {
+                    obs.exclude("x86-32:model:fault");
+                    return Ok(());
+                }
+                Err(crate::model32::Stop32::Unmodelled) => {
+                    obs.exclude(&format!("x86-32:not-mode-invariant:{}", why));
+                    return Ok(());
+                }
+            }
+        } else {
+            obs.class("oracle:cpu(mode-invariant)");
         }
     }
+    let native = reference.is_none();
     // ---- safety gates (this sandbox's kernel oopses when it has to return to user mode with a
     // non-canonical RSP, and a segment-register load can destroy the thread's TLS base)
-    if !canonical(c.gpr[4]) {
+    if native && !canonical(c.gpr[4]) {
         obs.exclude("unsafe:noncanonical-rsp");
         return Ok(());
     }
-    if matches!(d.ops.first(), Some(Op::Reg(r)) if r.class == RegClass::Seg) && mn != "push" {
+    if native && matches!(d.ops.first(), Some(Op::Reg(r)) if r.class == RegClass::Seg) && mn != "push" {
         obs.exclude("unsafe:segment-register-write");
         return Ok(());
     }
     // ---- IL execution (first: its prediction of RSP gates the native run)
     let init = il_state(c);
-    let pokes = c.pokes.clone();
-    let code_v = code.to_vec();
-    let init_byte = move |a: u64| cpu::initial_byte(a, &code_v, SLOT, &pokes);
     let prefetch: Vec<u64> = c.gpr.to_vec();
     let il_res = guard(|| run_il::run_il(cfg, block.successors(), &init, &init_byte, &prefetch));
     let predicted_rsp: Option<u64> = match &il_res {
@@ -507,13 +525,13 @@ pub fn check_case(c: &Case, obs: &mut Obs) -> Result<(), Failure> {
         _ => None,
     };
     match predicted_rsp {
-        Some(v) if !canonical(v) => {
+        Some(v) if native && !canonical(v) => {
             obs.exclude("unsafe:il-predicts-noncanonical-rsp");
             return Ok(());
         }
         Some(_) => {}
         None => {
-            if may_write_rsp64(&d, &mn) {
+            if native && may_write_rsp64(&d, &mn) {
                 obs.exclude("unsafe:rsp-write-unpredicted");
                 return Ok(());
             }
@@ -521,7 +539,10 @@ pub fn check_case(c: &Case, obs: &mut Obs) -> Result<(), Failure> {
     }
     // ---- native execution
     let xmm = xmm_bytes(c);
-    let out = cpu::with_runner(|r| r.run(&CpuIn { code, slot: SLOT, gpr: c.gpr, flags: c.flags, xmm, pokes: &c.pokes }));
+    let out = match reference {
+        Some(o) => o,
+        None => cpu::with_runner(|r| r.run(&CpuIn { code, slot: SLOT, gpr: c.gpr, flags: c.flags, xmm, pokes: &c.pokes })),
+    };
     match out.stop {
         Stop::Trap | Stop::FetchFault => {}
         ref s => {
@@ -529,7 +550,7 @@ pub fn check_case(c: &Case, obs: &mut Obs) -> Result<(), Failure> {
             return Ok(());
         }
     }
-    if !mode64 && out.gpr.iter().any(|g| *g >> 32 != 0) {
+    if !mode64 && native && out.gpr.iter().any(|g| *g >> 32 != 0) {
         obs.exclude("x86-32:upper-half-dirtied");
         return Ok(());
     }
@@ -890,7 +911,311 @@ pub fn render(c: &Case) -> String {
     s
 }
 
-/// Floors, frozen after measuring the generator (fractions of all evaluations).
+/// Floors, frozen after measuring the generator over three seeds with the known-findings list
+/// active (fractions of all evaluations; about 0.3 - 0.6 of the measured minimum).  The
+/// per-mnemonic floors stand for the design's "at least 85 mnemonics in amd64, 60 in x86-32".
 pub fn floors() -> Vec<(&'static str, f64)> {
-    Vec::new()
+    let mut v: Vec<(&'static str, f64)> = vec![
+        ("nontrivial", 0.55),
+        ("mode:x86", 0.18),
+        ("oracle:cpu(mode-invariant)", 0.08),
+        ("oracle:model32", 0.04),
+        ("source:mutation", 0.15),
+        ("source:random", 0.05),
+        ("feat:high-byte-reg", 0.010),
+        ("feat:rip-relative", 0.012),
+        ("feat:sib-index", 0.05),
+        ("feat:mem-operand", 0.15),
+        ("feat:memory-written", 0.08),
+        ("feat:xmm", 0.04),
+        ("feat:segment-override", 0.012),
+        ("feat:addr32-prefix", 0.003),
+        ("feat:rep-rcx=0", 0.0006),
+        ("feat:rep-rcx=1", 0.0006),
+        ("feat:rep-rcx>1", 0.002),
+        ("feat:rep-DF=0", 0.0015),
+        ("feat:rep-DF=1", 0.0015),
+        ("feat:branch-to-nonexec", 0.0003),
+    ];
+    v.extend_from_slice(MNEMONIC_FLOORS_AMD64);
+    v.extend_from_slice(MNEMONIC_FLOORS_X86);
+    v
 }
+
+/// 156 amd64 mnemonics
+const MNEMONIC_FLOORS_AMD64: &[(&str, f64)] = &[
+    ("mn:amd64:adc", 0.00197),
+    ("mn:amd64:add", 0.00283),
+    ("mn:amd64:and", 0.00238),
+    ("mn:amd64:bsf", 0.00114),
+    ("mn:amd64:bsr", 0.00117),
+    ("mn:amd64:bswap", 0.00103),
+    ("mn:amd64:bt", 0.00121),
+    ("mn:amd64:btc", 0.00123),
+    ("mn:amd64:btr", 0.00121),
+    ("mn:amd64:bts", 0.00117),
+    ("mn:amd64:call", 0.00134),
+    ("mn:amd64:cbw", 0.00021),
+    ("mn:amd64:cdq", 0.0006),
+    ("mn:amd64:cdqe", 0.00045),
+    ("mn:amd64:clc", 0.00132),
+    ("mn:amd64:cld", 0.00132),
+    ("mn:amd64:cli", 0.00035),
+    ("mn:amd64:cmc", 0.00138),
+    ("mn:amd64:cmova", 0.00122),
+    ("mn:amd64:cmovae", 0.00125),
+    ("mn:amd64:cmovb", 0.00117),
+    ("mn:amd64:cmovbe", 0.00123),
+    ("mn:amd64:cmove", 0.0012),
+    ("mn:amd64:cmovg", 0.00116),
+    ("mn:amd64:cmovge", 0.00121),
+    ("mn:amd64:cmovl", 0.00117),
+    ("mn:amd64:cmovle", 0.0012),
+    ("mn:amd64:cmovne", 0.00122),
+    ("mn:amd64:cmovno", 0.00119),
+    ("mn:amd64:cmovnp", 0.00122),
+    ("mn:amd64:cmovns", 0.00117),
+    ("mn:amd64:cmovo", 0.00118),
+    ("mn:amd64:cmovp", 0.00114),
+    ("mn:amd64:cmovs", 0.00118),
+    ("mn:amd64:cmp", 0.00185),
+    ("mn:amd64:cmpsb", 0.00075),
+    ("mn:amd64:cmpxchg", 0.00118),
+    ("mn:amd64:cwd", 0.00023),
+    ("mn:amd64:cwde", 0.00061),
+    ("mn:amd64:dec", 0.00127),
+    ("mn:amd64:div", 0.00118),
+    ("mn:amd64:hlt", 0.00032),
+    ("mn:amd64:idiv", 0.0012),
+    ("mn:amd64:imul", 0.00141),
+    ("mn:amd64:inc", 0.00136),
+    ("mn:amd64:int", 0.00033),
+    ("mn:amd64:ja", 0.00135),
+    ("mn:amd64:jae", 0.00136),
+    ("mn:amd64:jb", 0.0013),
+    ("mn:amd64:jbe", 0.0014),
+    ("mn:amd64:je", 0.00135),
+    ("mn:amd64:jg", 0.00172),
+    ("mn:amd64:jge", 0.00135),
+    ("mn:amd64:jl", 0.00136),
+    ("mn:amd64:jle", 0.00136),
+    ("mn:amd64:jmp", 0.0015),
+    ("mn:amd64:jne", 0.00136),
+    ("mn:amd64:jno", 0.00136),
+    ("mn:amd64:jnp", 0.00138),
+    ("mn:amd64:jns", 0.00133),
+    ("mn:amd64:jo", 0.0014),
+    ("mn:amd64:jp", 0.00137),
+    ("mn:amd64:js", 0.0014),
+    ("mn:amd64:lea", 0.00126),
+    ("mn:amd64:leave", 0.00134),
+    ("mn:amd64:lodsb", 0.0003),
+    ("mn:amd64:lodsd", 0.00017),
+    ("mn:amd64:loop", 0.0014),
+    ("mn:amd64:loope", 0.00133),
+    ("mn:amd64:loopne", 0.00134),
+    ("mn:amd64:mov", 0.00339),
+    ("mn:amd64:movabs", 0.00141),
+    ("mn:amd64:movapd", 0.00113),
+    ("mn:amd64:movaps", 0.00119),
+    ("mn:amd64:movd", 0.00057),
+    ("mn:amd64:movdqa", 0.00112),
+    ("mn:amd64:movdqu", 0.00117),
+    ("mn:amd64:movhpd", 0.00117),
+    ("mn:amd64:movlpd", 0.00107),
+    ("mn:amd64:movnti", 0.00117),
+    ("mn:amd64:movq", 0.00173),
+    ("mn:amd64:movsb", 0.00076),
+    ("mn:amd64:movsd", 0.00159),
+    ("mn:amd64:movsq", 0.00024),
+    ("mn:amd64:movsx", 0.00121),
+    ("mn:amd64:movsxd", 0.00045),
+    ("mn:amd64:movups", 0.0012),
+    ("mn:amd64:movzx", 0.00123),
+    ("mn:amd64:mul", 0.00126),
+    ("mn:amd64:neg", 0.00121),
+    ("mn:amd64:nop", 0.0014),
+    ("mn:amd64:not", 0.00122),
+    ("mn:amd64:or", 0.00215),
+    ("mn:amd64:paddq", 0.00116),
+    ("mn:amd64:pause", 0.00113),
+    ("mn:amd64:pcmpeqb", 0.00111),
+    ("mn:amd64:pcmpeqd", 0.00115),
+    ("mn:amd64:pminub", 0.00117),
+    ("mn:amd64:pmovmskb", 0.00112),
+    ("mn:amd64:pop", 0.0025),
+    ("mn:amd64:por", 0.00116),
+    ("mn:amd64:prefetchnta", 0.00032),
+    ("mn:amd64:prefetcht0", 0.00029),
+    ("mn:amd64:prefetcht1", 0.00029),
+    ("mn:amd64:prefetcht2", 0.0003),
+    ("mn:amd64:pshufd", 0.00118),
+    ("mn:amd64:pslldq", 0.00114),
+    ("mn:amd64:psrldq", 0.00111),
+    ("mn:amd64:psubb", 0.00117),
+    ("mn:amd64:psubq", 0.00111),
+    ("mn:amd64:punpcklbw", 0.00112),
+    ("mn:amd64:punpcklwd", 0.00112),
+    ("mn:amd64:push", 0.00277),
+    ("mn:amd64:pxor", 0.00116),
+    ("mn:amd64:ret", 0.0015),
+    ("mn:amd64:rol", 0.00137),
+    ("mn:amd64:ror", 0.00142),
+    ("mn:amd64:sahf", 0.00133),
+    ("mn:amd64:sar", 0.00132),
+    ("mn:amd64:sbb", 0.00186),
+    ("mn:amd64:scasb", 0.00073),
+    ("mn:amd64:seta", 0.00113),
+    ("mn:amd64:setae", 0.00117),
+    ("mn:amd64:setb", 0.00121),
+    ("mn:amd64:setbe", 0.00115),
+    ("mn:amd64:sete", 0.00117),
+    ("mn:amd64:setg", 0.0012),
+    ("mn:amd64:setge", 0.00121),
+    ("mn:amd64:setl", 0.00117),
+    ("mn:amd64:setle", 0.00123),
+    ("mn:amd64:setne", 0.00115),
+    ("mn:amd64:setno", 0.00118),
+    ("mn:amd64:setnp", 0.00117),
+    ("mn:amd64:setns", 0.00116),
+    ("mn:amd64:seto", 0.00122),
+    ("mn:amd64:setp", 0.00118),
+    ("mn:amd64:sets", 0.00117),
+    ("mn:amd64:shl", 0.00129),
+    ("mn:amd64:shld", 0.00119),
+    ("mn:amd64:shr", 0.00125),
+    ("mn:amd64:shrd", 0.00115),
+    ("mn:amd64:stc", 0.00132),
+    ("mn:amd64:std", 0.00133),
+    ("mn:amd64:sti", 0.00033),
+    ("mn:amd64:stosb", 0.00072),
+    ("mn:amd64:stosd", 0.00032),
+    ("mn:amd64:stosq", 0.00023),
+    ("mn:amd64:sub", 0.00189),
+    ("mn:amd64:syscall", 0.00031),
+    ("mn:amd64:sysenter", 0.00021),
+    ("mn:amd64:test", 0.00156),
+    ("mn:amd64:ud2", 0.0002),
+    ("mn:amd64:wait", 0.00135),
+    ("mn:amd64:xadd", 0.00127),
+    ("mn:amd64:xchg", 0.00249),
+    ("mn:amd64:xor", 0.00184),
+];
+
+/// 114 x86-32 mnemonics
+const MNEMONIC_FLOORS_X86: &[(&str, f64)] = &[
+    ("mn:x86:adc", 0.00041),
+    ("mn:x86:add", 0.00071),
+    ("mn:x86:and", 0.00059),
+    ("mn:x86:bsf", 0.00034),
+    ("mn:x86:bsr", 0.00032),
+    ("mn:x86:bswap", 0.00018),
+    ("mn:x86:bt", 0.00034),
+    ("mn:x86:btc", 0.00036),
+    ("mn:x86:btr", 0.00035),
+    ("mn:x86:bts", 0.00036),
+    ("mn:x86:call", 0.00154),
+    ("mn:x86:cbw", 0.00014),
+    ("mn:x86:cdq", 0.00019),
+    ("mn:x86:clc", 0.0004),
+    ("mn:x86:cld", 0.00038),
+    ("mn:x86:cmc", 0.00037),
+    ("mn:x86:cmova", 0.00035),
+    ("mn:x86:cmovae", 0.00037),
+    ("mn:x86:cmovb", 0.00035),
+    ("mn:x86:cmovbe", 0.00034),
+    ("mn:x86:cmove", 0.00035),
+    ("mn:x86:cmovg", 0.00034),
+    ("mn:x86:cmovge", 0.00036),
+    ("mn:x86:cmovl", 0.00035),
+    ("mn:x86:cmovle", 0.00036),
+    ("mn:x86:cmovne", 0.00035),
+    ("mn:x86:cmovno", 0.00035),
+    ("mn:x86:cmovnp", 0.00038),
+    ("mn:x86:cmovns", 0.00036),
+    ("mn:x86:cmovo", 0.00033),
+    ("mn:x86:cmovp", 0.00035),
+    ("mn:x86:cmovs", 0.00036),
+    ("mn:x86:cmp", 0.00042),
+    ("mn:x86:cmpsb", 0.00018),
+    ("mn:x86:cmpxchg", 0.00036),
+    ("mn:x86:cwd", 0.00016),
+    ("mn:x86:cwde", 0.00018),
+    ("mn:x86:dec", 0.00478),
+    ("mn:x86:div", 0.00034),
+    ("mn:x86:idiv", 0.00037),
+    ("mn:x86:imul", 0.00035),
+    ("mn:x86:inc", 0.00498),
+    ("mn:x86:ja", 0.0004),
+    ("mn:x86:jae", 0.00036),
+    ("mn:x86:jb", 0.00039),
+    ("mn:x86:jbe", 0.00039),
+    ("mn:x86:je", 0.00037),
+    ("mn:x86:jecxz", 0.00147),
+    ("mn:x86:jg", 0.00051),
+    ("mn:x86:jge", 0.00038),
+    ("mn:x86:jl", 0.00035),
+    ("mn:x86:jle", 0.00036),
+    ("mn:x86:jmp", 0.0018),
+    ("mn:x86:jne", 0.00036),
+    ("mn:x86:jno", 0.00038),
+    ("mn:x86:jnp", 0.00036),
+    ("mn:x86:jns", 0.00036),
+    ("mn:x86:jo", 0.00039),
+    ("mn:x86:jp", 0.00037),
+    ("mn:x86:js", 0.00037),
+    ("mn:x86:lea", 0.00038),
+    ("mn:x86:leave", 0.00147),
+    ("mn:x86:loop", 0.00146),
+    ("mn:x86:loope", 0.00149),
+    ("mn:x86:loopne", 0.00147),
+    ("mn:x86:mov", 0.00212),
+    ("mn:x86:movnti", 0.00034),
+    ("mn:x86:movsb", 0.00019),
+    ("mn:x86:movsx", 0.00033),
+    ("mn:x86:movzx", 0.00034),
+    ("mn:x86:mul", 0.00036),
+    ("mn:x86:neg", 0.00037),
+    ("mn:x86:nop", 0.0004),
+    ("mn:x86:not", 0.00035),
+    ("mn:x86:or", 0.00049),
+    ("mn:x86:pause", 0.00035),
+    ("mn:x86:pop", 0.00169),
+    ("mn:x86:push", 0.00176),
+    ("mn:x86:ret", 0.00146),
+    ("mn:x86:rol", 0.00039),
+    ("mn:x86:ror", 0.00036),
+    ("mn:x86:sahf", 0.00036),
+    ("mn:x86:sar", 0.00039),
+    ("mn:x86:sbb", 0.00043),
+    ("mn:x86:scasb", 0.00018),
+    ("mn:x86:seta", 0.00035),
+    ("mn:x86:setae", 0.00033),
+    ("mn:x86:setb", 0.00035),
+    ("mn:x86:setbe", 0.00036),
+    ("mn:x86:sete", 0.00035),
+    ("mn:x86:setg", 0.00036),
+    ("mn:x86:setge", 0.00034),
+    ("mn:x86:setl", 0.00034),
+    ("mn:x86:setle", 0.00036),
+    ("mn:x86:setne", 0.00036),
+    ("mn:x86:setno", 0.00035),
+    ("mn:x86:setnp", 0.00037),
+    ("mn:x86:setns", 0.00032),
+    ("mn:x86:seto", 0.00035),
+    ("mn:x86:setp", 0.00036),
+    ("mn:x86:sets", 0.00035),
+    ("mn:x86:shl", 0.00038),
+    ("mn:x86:shld", 0.00034),
+    ("mn:x86:shr", 0.00036),
+    ("mn:x86:shrd", 0.00037),
+    ("mn:x86:stc", 0.00032),
+    ("mn:x86:std", 0.00037),
+    ("mn:x86:stosb", 0.00018),
+    ("mn:x86:sub", 0.00043),
+    ("mn:x86:test", 0.00037),
+    ("mn:x86:wait", 0.00036),
+    ("mn:x86:xadd", 0.00037),
+    ("mn:x86:xchg", 0.00053),
+    ("mn:x86:xor", 0.00044),
+];
